@@ -174,6 +174,7 @@ type Case struct {
 	MinSize   int     `json:"minSize,omitempty"` // channel pool minSize of the gRPC-GCP config handed to GCPMultiEndpoint (0 = absent)
 	InPlace   bool    `json:"inPlace,omitempty"` // the caller keeps one options object and edits it in place between updates
 	MaxSize   int     `json:"maxSize,omitempty"`
+	UserOpts  int     `json:"userDialOptions,omitempty"` // extra dial options of the caller: 1 default service config selecting pick_first, 2 one with only a retry policy, 3 one with another grpc_gcp config, 4 a user agent
 	Init      Options `json:"init"`
 	Ops       []Op    `json:"ops"`
 	Failure   *Fail   `json:"failure,omitempty"`
@@ -697,7 +698,10 @@ func Run(c *Case, props map[string]bool) (res Result) {
 	if c.MinSize > 0 || c.MaxSize > 0 {
 		o.GRPCgcpConfig = &pb.ApiConfig{ChannelPool: &pb.ChannelPoolConfig{MinSize: uint32(c.MinSize), MaxSize: uint32(c.MaxSize)}}
 	}
-	gme, err := grpcgcp.NewGCPMultiEndpoint(o)
+	gme, err := grpcgcp.NewGCPMultiEndpoint(o, userDialOptions(c.UserOpts)...)
+	if c.UserOpts != 0 {
+		w.labels["caller-dial-options"]++
+	}
 	if err != nil {
 		w.fail("C15", "construct", "NewGCPMultiEndpoint rejected valid options: %v", err)
 	}
@@ -982,4 +986,21 @@ func SetUp(target string, up bool) {
 	if e := endpoints()[target]; e != nil {
 		e.set(up)
 	}
+}
+
+// userDialOptions are dial options a caller may pass next to the GCPMultiEndpoint options. The library documents
+// that the gRPC-GCP configuration it is given applies to every pool, so a default service config among them
+// must not replace it.
+func userDialOptions(k int) []grpc.DialOption {
+	switch k {
+	case 1:
+		return []grpc.DialOption{grpc.WithDefaultServiceConfig(`{"loadBalancingConfig":[{"pick_first":{}}]}`)}
+	case 2:
+		return []grpc.DialOption{grpc.WithDefaultServiceConfig(`{"methodConfig":[{"name":[{"service":"helloworld.Greeter"}],"retryPolicy":{"maxAttempts":2,"initialBackoff":"0.01s","maxBackoff":"0.01s","backoffMultiplier":1,"retryableStatusCodes":["ABORTED"]}}]}`)}
+	case 3:
+		return []grpc.DialOption{grpc.WithDefaultServiceConfig(`{"loadBalancingConfig":[{"grpc_gcp":{"channelPool":{"minSize":1,"maxSize":1}}}]}`), grpc.WithUserAgent("caller")}
+	case 4:
+		return []grpc.DialOption{grpc.WithUserAgent("caller")}
+	}
+	return nil
 }
